@@ -375,3 +375,234 @@ Proof.
 Qed.
 
 End Core.
+
+(* ------------------------------------------------------------------ *)
+(* base structures and the assembled statement                         *)
+(* ------------------------------------------------------------------ *)
+
+Lemma combine_fst_snd {X Y} (l : list (X * Y)) : combine (map fst l) (map snd l) = l.
+Proof. induction l as [|[a b] l IH]; simpl; congruence. Qed.
+
+Lemma Forall2_nth_error_l {X Y} (P : X -> Y -> Prop) l l' k x :
+  Forall2 P l l' -> nth_error l k = Some x -> exists y, nth_error l' k = Some y /\ P x y.
+Proof.
+  intros HF. revert k. induction HF as [|a b l l' Hab _ IH]; intros k Hk; [destruct k; discriminate|].
+  destruct k; simpl in *; [injection Hk as ->; eauto|now apply IH].
+Qed.
+
+Lemma map_app_nil (l : list Expand.str) : map (app []) l = l.
+Proof. rewrite (map_ext (app []) (fun x => x)) by reflexivity. apply map_id. Qed.
+
+Section Assembly.
+Context {A : palg}.
+Variable R : parith A.
+Variable E : env.
+Hypothesis HE : env_ok E.
+Notation OPS := (ops_of R).
+Notation e_pm := (pm (e_lower E)).
+Notation L1 := (lower1 (e_lower E)).
+
+Definition structure_of (r : parsed) : TextFile.str := structure (map label_str (p_base r)).
+Definition r_supported (r : parsed) : bool := forallb supported_label' (p_base r).
+
+(* the base structures the guesser keeps, in file order *)
+Definition loaded_bases (t : trained A) : list (P A * list TextFile.str) :=
+  map (fun l => (a_div R (snd l) (skip_total (a_one R) (a_sub R) (base_file R t)),
+                 Loader.insert_caps (toks (e_isalpha E) (fst l))))
+      (filter (nonM (e_isalpha E)) (base_file R t)).
+
+(* the loader does not divide by zero: P(M) is not 1 *)
+Definition no_zero_div (t : trained A) : Prop :=
+  a_eqb R (skip_total (a_one R) (a_sub R) (base_file R t)) (a_zero R) = false.
+
+Lemma base_file_keys o raw rs k :
+  In k (map fst (base_file R (trained_of E o raw rs))) ->
+  k = M_key \/ exists r, In r rs /\ r_supported r = true /\ k = structure_of r.
+Proof.
+  unfold base_file. rewrite (calc_probs_keys_in OPS). unfold base_counter. intros H.
+  apply with_markov_keys_sub in H. destruct H as [H|H]; [now left|right].
+  unfold of_counts in H. rewrite map_map in H. simpl in H. cbn [trained_of t_counters counters_of pc_structs] in H.
+  change (In k (map fst (sc_base (count_structs (map (fun r => map label_str (p_base r)) rs))))) in H.
+  apply count_structs_base in H. destruct H as (ls & Hls & Hsup & ->).
+  apply in_map_iff in Hls. destruct Hls as (r & <- & Hr). exists r. split; [assumption|]. split; [|reflexivity].
+  unfold r_supported. now rewrite <- supported_labels.
+Qed.
+
+Lemma base_file_has o raw rs r :
+  a_eqb R (o_cov o) (a_zero R) = false -> In r rs -> r_supported r = true ->
+  In (structure_of r) (map fst (base_file R (trained_of E o raw rs))).
+Proof.
+  intros Hcov Hr Hs. unfold base_file. rewrite (calc_probs_keys_in OPS). unfold base_counter.
+  apply with_markov_keys_sup; [exact Hcov|].
+  unfold of_counts. rewrite map_map. simpl. cbn [trained_of t_counters counters_of pc_structs].
+  change (In (structure_of r) (map fst (sc_base (count_structs (map (fun r => map label_str (p_base r)) rs))))).
+  apply count_structs_base_all; [apply in_map_iff; now exists r|]. rewrite supported_labels. exact Hs.
+Qed.
+
+Lemma toks_structure r : parsed_ok E r -> toks (e_isalpha E) (structure_of r) = map label_str (p_base r).
+Proof.
+  intros Hok. unfold toks, structure_of.
+  rewrite (tokenize_labels (e_isalpha E) (ok_letters E HE) (ok_digits E HE) (p_base r) (base_nonneg E r Hok)). reflexivity.
+Qed.
+
+Lemma toks_M : toks (e_isalpha E) M_key = [[77%N]].
+Proof. unfold toks, M_key. now rewrite (tokenize_M (e_isalpha E) (ok_letters E HE)). Qed.
+
+Lemma base_file_tokenizes o raw rs : Forall (parsed_ok E) rs ->
+  Forall (fun l => Loader.tokenize (e_isalpha E) (fst l) <> None) (base_file R (trained_of E o raw rs)).
+Proof.
+  intros Hrs. apply Forall_forall. intros [k p] Hl.
+  assert (Hk : In k (map fst (base_file R (trained_of E o raw rs)))) by (apply in_map_iff; now exists (k, p)).
+  destruct (base_file_keys o raw rs k Hk) as [->|(r & Hr & _ & ->)]; cbn [fst].
+  - unfold M_key. now rewrite (tokenize_M (e_isalpha E) (ok_letters E HE)).
+  - rewrite Forall_forall in Hrs. unfold structure_of.
+    now rewrite (tokenize_labels (e_isalpha E) (ok_letters E HE) (ok_digits E HE) (p_base r) (base_nonneg E r (Hrs r Hr))).
+Qed.
+
+Lemma load_bases_saved o raw rs : Forall (parsed_ok E) rs -> no_zero_div (trained_of E o raw rs) ->
+  load_base_structures R E (@disk_base_ideal A) (save R (trained_of E o raw rs)) = Some (loaded_bases (trained_of E o raw rs)).
+Proof.
+  intros Hrs Hz. rewrite load_base_structures_saved, (ok_rewinds E HE).
+  apply (load_bases_spec (a_one R) (a_sub R) (a_div R) (fun x => a_eqb R x (a_zero R)) (e_isalpha E)).
+  - intros _. exact Hz.
+  - now apply base_file_tokenizes.
+Qed.
+
+(* every kept base structure resolves against the grammar *)
+Lemma loaded_bases_resolve o raw rs : Forall (parsed_ok E) rs ->
+  Forall (fun b => vars_of (grammar_of R (counters_of rs)) (snd b) <> None) (loaded_bases (trained_of E o raw rs)).
+Proof.
+  intros Hrs. apply Forall_forall. intros b Hb. unfold loaded_bases in Hb. apply in_map_iff in Hb.
+  destruct Hb as ([k p] & <- & Hl). apply filter_In in Hl. destruct Hl as (Hl & HnM). cbn [fst snd].
+  assert (Hk : In k (map fst (base_file R (trained_of E o raw rs)))) by (apply in_map_iff; now exists (k, p)).
+  destruct (base_file_keys o raw rs k Hk) as [->|(r & Hr & Hsup & ->)].
+  - unfold nonM in HnM. cbn [fst] in HnM. rewrite toks_M in HnM. discriminate.
+  - rewrite Forall_forall in Hrs. pose proof (Hrs r Hr) as Hok.
+    rewrite (toks_structure r Hok), insert_caps_labels.
+    (* case_cond is irrelevant for resolving names: use the trivially true instance via section-wise resolution *)
+    assert (Hnames : forall sl ls, (forall x, In x sl -> In x (p_sections r)) -> Forall2 (fun x l => snd x = Some l) sl ls ->
+              forallb supported_label' ls = true ->
+              vars_of (grammar_of R (counters_of rs)) (flat_map names_of_label ls) <> None).
+    { intros sl ls Hsub HF. induction HF as [|x l sl ls Hx _ IH]; intros Hs; [discriminate|].
+      simpl in Hs. apply andb_true_iff in Hs. destruct Hs as (Hl' & Hls).
+      assert (Hsx : sound (e_isalpha E) (e_isdigit E) (e_kbs E) (e_min_run E) (e_year_prefixes E) (e_context E) x).
+      { destruct Hok as (Hs & _). rewrite Forall_forall in Hs. apply Hs. apply Hsub. now left. }
+      assert (H1 : vars_of (grammar_of R (counters_of rs)) (names_of_label l) <> None).
+      { rewrite <- (sec_names E x l Hsx Hx Hl').
+        assert (G : forall ents, (forall nv, In nv ents -> In nv (sec_entries E x)) ->
+                      vars_of (grammar_of R (counters_of rs)) (map fst ents) <> None).
+        { induction ents as [|[name v] ents IHe]; intros Hsub'; [discriminate|]. simpl.
+          destruct (entry_resolved R E rs r x name v Hr Hok (Hsub x (or_introl eq_refl)) (Hsub' _ (or_introl eq_refl)))
+            as (var & _ & _ & Hvar & _). rewrite Hvar.
+          specialize (IHe (fun nv Hnv => Hsub' nv (or_intror Hnv))).
+          destruct (vars_of (grammar_of R (counters_of rs)) (map fst ents)); [discriminate|congruence]. }
+        apply G. auto. }
+      specialize (IH (fun y Hy => Hsub y (or_intror Hy)) Hls). simpl.
+      destruct (vars_of (grammar_of R (counters_of rs)) (names_of_label l)) as [va|] eqn:Ea; [|congruence].
+      destruct (vars_of (grammar_of R (counters_of rs)) (flat_map names_of_label ls)) as [vb|] eqn:Eb; [|congruence].
+      rewrite (vars_of_app _ _ _ va vb Ea Eb). discriminate. }
+    apply (Hnames (p_sections r) (p_base r)); [auto|now apply (sections_labels E)|exact Hsup].
+Qed.
+
+(* the closed form of what the guesser holds after loading the saved ruleset *)
+Theorem load_saved o raw rs : Forall (parsed_ok E) rs -> no_zero_div (trained_of E o raw rs) ->
+  exists bl, load R E (disk_ideal R) (@disk_base_ideal A) (save R (trained_of E o raw rs)) =
+             Some {| l_grammar := grammar_of R (counters_of rs);
+                     l_rs := {| tbl := map (fun e => map snd (snd e)) (grammar_of R (counters_of rs)); bases := bl |} |} /\
+    Forall2 (fun b x => bprob x = fst b /\ vars_of (grammar_of R (counters_of rs)) (snd b) = Some (brepl x))
+            (loaded_bases (trained_of E o raw rs)) bl.
+Proof.
+  intros Hrs Hz. unfold load.
+  rewrite (load_sections_saved R (trained_of E o raw rs)) by (cbn [trained_of t_counters counters_of pc_alpha pc_masks pc_digits pc_other pc_keyboard]; apply ltally_keys_nodup).
+  rewrite (load_bases_saved o raw rs Hrs Hz). cbn [trained_of t_counters].
+  destruct (bases_of_all (grammar_of R (counters_of rs)) _ (loaded_bases_resolve o raw rs Hrs)) as (bl & Hbl & HF).
+  exists bl. cbn [trained_of t_counters] in Hbl. rewrite Hbl. split; [reflexivity|exact HF].
+Qed.
+
+(* a tiling without website section is the list of the section texts *)
+Lemma tiles_texts pw sl : tiles e_pm pw sl -> Forall (fun x => snd x <> Some LW) sl -> concat (map fst sl) = pw.
+Proof.
+  intros (pieces & <- & HF) Hn. f_equal. induction HF as [|pc x ps xs Hpm _ IH]; [reflexivity|].
+  inversion Hn as [|? ? Hx Hxs]; subst. simpl. rewrite (IH Hxs). f_equal.
+  unfold pm in Hpm. destruct (snd x) as [[]|]; congruence.
+Qed.
+
+(* THE CORE: the loaded ruleset has a pre-terminal whose expansion prints the password *)
+Theorem reproduced_core o raw tr pw :
+  train E o raw = Some tr -> In pw raw -> accepted_pw E pw = true -> supported_pw E o raw pw = true ->
+  case_ok_pw E pw -> a_eqb R (o_cov o) (a_zero R) = false -> no_zero_div tr ->
+  exists L, load R E (disk_ideal R) (@disk_base_ideal A) (save R tr) = Some L /\
+    exists it, In it (all_preterminals (l_rs L)) /\
+      exists out k, guesses_of R E L it = Some (out, k) /\ In pw out.
+Proof.
+  intros Htr Hin Hacc Hsup Hcase Hcov Hz.
+  destruct (train_facts E HE o raw tr Htr) as (rs & -> & Hrs & Hpw).
+  destruct (Hpw pw Hin Hacc) as (r & Hr & Eseg & Htiles).
+  destruct (load_saved o raw rs Hrs Hz) as (bl & Hload & HF).
+  eexists. split; [exact Hload|]. cbn [l_rs l_grammar].
+  set (g := grammar_of R (counters_of rs)) in *.
+  set (rsx := {| tbl := map (fun e => map snd (snd e)) g; bases := bl |}).
+  rewrite Forall_forall in Hrs. pose proof (Hrs r Hr) as Hok.
+  (* supportedness *)
+  assert (Hrsup : r_supported r = true).
+  { unfold supported_pw in Hsup. rewrite Eseg in Hsup. destruct Hok as (_ & _ & Hc).
+    destruct Hc as (_ & _ & _ & _ & _ & _ & _ & _ & _ & _ & _ & Hps & _). rewrite Hps in Hsup. exact Hsup. }
+  pose proof (sections_labels E r Hok) as Hlab.
+  assert (HnoW : Forall (fun x => snd x <> Some LW) (p_sections r)).
+  { unfold r_supported in Hrsup. clear -Hlab Hrsup. induction Hlab as [|x l sl ls Hx _ IH]; [constructor|].
+    simpl in Hrsup. apply andb_true_iff in Hrsup. destruct Hrsup as (H1 & H2). constructor; [|now apply IH].
+    rewrite Hx. intros H. injection H as ->. discriminate. }
+  pose proof (tiles_texts pw (p_sections r) Htiles HnoW) as Hconcat.
+  (* the sections resolve *)
+  destruct (sections_resolved R E rs r Hr Hok (p_sections r) (p_base r) (fun x H => H) Hlab Hrsup
+              ltac:(rewrite Hconcat; exact Hcase)) as (pt & segs & Hvars & Hbound & Hslots & Hsegok & Htile).
+  (* its base structure is loaded *)
+  pose proof (base_file_has o raw rs r Hcov Hr Hrsup) as Hkey. apply in_map_iff in Hkey.
+  destruct Hkey as ([k p] & Ek & Hline). cbn [fst] in Ek. subst k.
+  assert (Hb : In (a_div R p (skip_total (a_one R) (a_sub R) (base_file R (trained_of E o raw rs))),
+                   flat_map names_of_label (p_base r)) (loaded_bases (trained_of E o raw rs))).
+  { unfold loaded_bases. apply in_map_iff. exists (structure_of r, p). cbn [fst snd]. split.
+    - now rewrite (toks_structure r Hok), insert_caps_labels.
+    - apply filter_In. split; [assumption|]. unfold nonM. cbn [fst]. rewrite (toks_structure r Hok), has_M_labels. reflexivity. }
+  destruct (In_nth_error _ _ Hb) as (kpos & Hk).
+  assert (Hx : exists x, nth_error bl kpos = Some x /\ brepl x = map fst pt).
+  { destruct (Forall2_nth_error_l _ _ _ _ _ HF Hk) as (x & Hnx & _ & Hv). exists x. split; [assumption|].
+    cbn [snd] in Hv. unfold g in Hv. rewrite Hvars in Hv. now injection Hv. }
+  destruct Hx as (x & Hnx & Hrepl).
+  exists (mk rsx kpos pt (bprob x)). split.
+  - unfold all_preterminals. apply in_flat_map. exists (kpos, x). split; [now apply in_combine_seq|].
+    unfold preterminals_of. cbn [fst snd]. apply in_map_iff. exists (map snd pt). split.
+    + rewrite Hrepl, combine_fst_snd. reflexivity.
+    + apply In_vectors. rewrite Hrepl. clear -Hbound. induction Hbound as [|[v i] pt Hvi _ IH]; [constructor|].
+      simpl. constructor; [exact Hvi|exact IH].
+  - assert (Hne : segs <> []).
+    { intros ->. inversion Htile as [Hnil|]. symmetry in Hnil. apply map_eq_nil in Hnil. rewrite Hnil in Hconcat. simpl in Hconcat.
+      apply (accepted_nonempty E pw (ok_rej_empty E HE) Hacc). now symmetry. }
+    exists (denote (e_upper E) segs), (length (denote (e_upper E) segs)). split.
+    + unfold guesses_of. cbn [l_grammar ipt mk]. unfold g.
+      replace (map (slot_of R (grammar_of R (counters_of rs))) pt) with (flat_map slots_of segs) by (symmetry; exact Hslots).
+      rewrite (C04_expand_is_product_cur (e_upper E) (e_omen E) segs [] Hne Hsegok). now rewrite map_app_nil.
+    + rewrite <- Hconcat. exact (password_in_denote (e_upper E) L1 (e_isupper E) _ _ Htile).
+Qed.
+
+(* ... which every complete session emits, when the loaded ruleset is well formed *)
+Theorem reproduced_emitted o raw tr pw :
+  train E o raw = Some tr -> In pw raw -> accepted_pw E pw = true -> supported_pw E o raw pw = true ->
+  case_ok_pw E pw -> a_eqb R (o_cov o) (a_zero R) = false -> no_zero_div tr ->
+  exists L, load R E (disk_ideal R) (@disk_base_ideal A) (save R tr) = Some L /\
+    (wf (l_rs L) -> forall pop, pop_ok_okb pop ->
+       (exists it, In it (session pop L) /\ exists out k, guesses_of R E L it = Some (out, k) /\ In pw out) /\
+       In pw (printed R E pop L)).
+Proof.
+  intros Htr Hin Hacc Hsup Hcase Hcov Hz.
+  destruct (reproduced_core o raw tr pw Htr Hin Hacc Hsup Hcase Hcov Hz) as (L & HL & it & Hit & out & k & Hg & Hout).
+  exists L. split; [assumption|]. intros Hwf pop Hpop.
+  assert (Hs : In it (session pop L)).
+  { unfold session. rewrite <- in_rev. destruct (C02_exactly_once_okb (l_rs L) Hwf pop Hpop) as (Hperm & _).
+    eapply Permutation_in; [apply Permutation_sym; exact Hperm|exact Hit]. }
+  split.
+  - exists it. split; [assumption|]. eauto.
+  - unfold printed. apply in_flat_map. exists it. split; [assumption|]. now rewrite Hg.
+Qed.
+
+End Assembly.
